@@ -23,7 +23,11 @@ ASSUMPTIONS = [
     'days in [1900-01-01, 2300-01-01), naive datetimes (tzinfo None), dialect in {uk, us}',
     'day and month fields of strings are zero-padded to two digits and the year has four digits (strftime spelling); unpadded / two-digit-year strings are outside the claim (DESIGN section 4)',
     'separators {-,/,.,space} are applied to the day-month-year and month-day-year strings; "ISO" is yyyy-mm-dd[Thh:mm:ss[.ffffff]] only',
-    'month names are the English full names and 3-letter abbreviations, in the spellings "dd Month yyyy", "Month dd, yyyy", "dd-Mon-yyyy"',
+    'month names are the English full names and 3-letter abbreviations, in the spellings "dd Month yyyy", "Month dd, yyyy", "dd-Mon-yyyy" (capitalised; the first and third also in upper and lower case)',
+    'a fraction of a second in a string has 1 to 9 digits and means a decimal fraction; digits beyond the sixth are zeros (sub-microsecond instants are not datetimes)',
+    'time parts of dt(y, m, d, ...) are a prefix of (h, mi, s): 3, 4, 5 or 6 positional ints',
+    'dialect is spelled "uk" / "us" (tests) or "US" (docstring); dialect="UK" is NOT asserted - the library reads every dialect other than lower-case "uk" as US (candidate defect, reported)',
+    'numpy integers (np.int64 yyyymmdd / ordinal) are NOT asserted: dt(np.int64(20000110)) raises TypeError in num2dt (candidate defect, reported); the statement says "integer"',
     'lossless (microsecond) spellings: datetime, pd.Timestamp, datetime64[us], datetime64[ns], ISO string with fraction, dd-mm-yyyy / mm-dd-yyyy strings with hh:mm:ss.ffffff, dt2str round trip; '
     '(y,m,d,h,mi,s) and hh:mm:ss strings carry whole seconds; coarser datetime64 units are compared with the instant truncated to the unit',
     'datetime64[ns] only for days before 2262-04-11 (numpy cannot represent later instants in ns)',
@@ -89,6 +93,8 @@ def run_day(spec):
     one(dt, 'dt', day0, datetime.date(y, m, d))
     one(dt, 'dt', day0, y, m, d)
     one(dt, 'dt', tsec, y, m, d, h, mi, s)
+    one(dt, 'dt', DT(y, m, d, h), y, m, d, h)             # a prefix of [h, mi, s]
+    one(dt, 'dt', DT(y, m, d, h, mi), y, m, d, h, mi)
     one(dt, 'dt', day0, y * 10000 + m * 100 + d)
     one(dt, 'dt', day0, o)
     for unit, exp in [('D', day0), ('h', DT(y, m, d, h)), ('m', DT(y, m, d, h, mi)), ('s', tsec),
@@ -98,6 +104,9 @@ def run_day(spec):
         _same(what, call(what, dt, x), exp)
     ts = pd.Timestamp(t)
     _same('dt(pd.Timestamp(%r))' % str(t), call('dt(pd.Timestamp(%r))' % str(t), dt, ts), t)
+    if o < O_NS_MAX:
+        what = 'dt(pd.Timestamp(%r).as_unit("ns"))' % str(t)
+        _same(what, call(what, dt, ts.as_unit('ns')), t)
 
     # ---- dialect-independent strings, read in both dialects
     hms = '%02d:%02d:%02d' % (h, mi, s)
@@ -111,6 +120,23 @@ def run_day(spec):
     both(tsec, '%02d %s %04d %s' % (d, MONTHS[m - 1], y, hms))
     both(day0, '%s %02d, %04d' % (MONTHS[m - 1], d, y))
     both(day0, '%02d-%s-%04d' % (d, MONTHS[m - 1][:3], y))
+    # ISO 'T' strings with a fraction of 1-5 and 7-9 digits (isoformat(timespec='milliseconds'), str(np.datetime64(t, 'ms' / 'ns'))):
+    # the fraction is a decimal fraction of a second, whatever its length; digits beyond the microsecond are zeros here
+    digits = '%06d000' % us
+    for k in (1, 2, 3, 4, 5, 7, 8, 9):
+        exp = DT(y, m, d, h, mi, s, int((digits[:k] + '000000')[:6]))
+        text = '%sT%s.%s' % (ymd_, hms, digits[:k])
+        if (o + k) % 2:
+            one(dt, 'dt', exp, text)
+        else:
+            one(dt, 'dt', exp, text, dialect='us')
+    # month names in upper / lower case
+    if o % 2:
+        one(dt, 'dt', day0, '%02d-%s-%04d' % (d, MONTHS[m - 1][:3].upper(), y))
+        one(dt, 'dt', day0, '%02d %s %04d' % (d, MONTHS[m - 1].lower(), y), dialect='us')
+    else:
+        one(dt, 'dt', day0, '%02d-%s-%04d' % (d, MONTHS[m - 1][:3].lower(), y), dialect='us')
+        one(dt, 'dt', day0, '%02d %s %04d' % (d, MONTHS[m - 1].upper(), y))
 
     # ---- day-month-year (uk) / month-day-year (us), four separators
     for sep in SEPS:
@@ -124,6 +150,14 @@ def run_day(spec):
         one(dt, 'dt', t, mdy + ' ' + frac, dialect='us')
         if d > 12 or uk_fraction_low_days:
             one(dt, 'dt', t, dmy + ' ' + frac)
+        if sep == SEPS[o % 4]:
+            # one separator per day: the upper-case spelling of the dialect used in dt's docstring, and a short (1-5 digit) fraction
+            k = 1 + o % 5
+            exp = DT(y, m, d, h, mi, s, int((digits[:k] + '000000')[:6]))
+            one(dt, 'dt', day0, mdy, dialect='US')
+            one(dt, 'dt', exp, '%s %s.%s' % (mdy, hms, digits[:k]), dialect='us')
+            if d > 12 or uk_fraction_low_days:
+                one(dt, 'dt', exp, '%s %s.%s' % (dmy, hms, digits[:k]))
         if d > 12:
             # unambiguous but written in the other dialect: rejected, never swapped
             for text in (mdy, mdy + ' ' + hms):
@@ -166,6 +200,24 @@ def run_day(spec):
     if o < O_NS_MAX:
         cls.append('ns_representable')
     cls.append('midnight' if sec == 0 and us == 0 else 'whole_second' if us == 0 else 'microseconds')
+    if us:
+        # float seconds since 1970 cannot hold a microsecond from 2**33 s (2242-03-16) on, and 1e-9 * int64 ns loses it from about 2**32 s (2106-02-07) on
+        if y >= 2243:
+            cls.append('subsecond_from_2243')
+        if y >= 2107 and o < O_NS_MAX:
+            cls.append('subsecond_ns_2107_to_limit')
+        if y < 1970:
+            cls.append('subsecond_before_1970')
+    if int(digits[:5]):
+        cls.append('short_fraction_informative')   # the 1-5 digit prefixes are not all zero: "digits as a count" differs from "decimal fraction"
+    if us and us % 1000 == 0:
+        cls.append('whole_milliseconds')
+    if sec == 0 and us == 1:
+        cls.append('only_microsecond=1')
+    if sec == 86399 and us == 999999:
+        cls.append('last_microsecond_of_day')
+    if h == 0 and (mi or s or us):
+        cls.append('hour=0_time!=0')
     return dict(nt=bool(ambiguous or leap_day or year_boundary or (century and (m, d) in ((2, 28), (3, 1)))), cls=cls)
 
 
@@ -173,7 +225,7 @@ def run_day(spec):
 
 _BOUNDARY_YEARS = [1900, 1901, 1904, 1969, 1970, 1999, 2000, 2001, 2038, 2099, 2100, 2199, 2200, 2261, 2262, 2263, 2299]
 _LEAP_YEARS = [y for y in range(1900, 2300) if _is_leap(y)]
-_years = st.one_of(st.integers(1900, 2299), st.integers(1900, 2299), st.sampled_from(_BOUNDARY_YEARS))
+_years = st.one_of(st.integers(1900, 2299), st.integers(2107, 2299), st.sampled_from(_BOUNDARY_YEARS))   # the late range is boosted (float precision)
 
 
 def _ordinal(ymd):
@@ -192,9 +244,11 @@ _day = st.one_of(
     st.sampled_from([(1900, 1, 1), (1900, 1, 2), (2299, 12, 31), (2299, 12, 30), (1969, 12, 31), (1970, 1, 1), (2262, 4, 10), (2262, 4, 11), (2262, 4, 12)]),
 ).map(_ordinal)
 
-_sec = st.one_of(st.integers(0, 86399), st.sampled_from([0, 0, 1, 59, 60, 3599, 3600, 43199, 43200, 86340, 86399]))
-_us = st.one_of(st.integers(0, 999999), st.sampled_from([0, 0, 1, 999, 1000, 500000, 999000, 999999]))
-_day_case = st.tuples(_day, _sec, _us).map(list)
+_sec = st.one_of(st.integers(0, 86399), st.integers(0, 86399), st.integers(3600, 86399), st.sampled_from([0, 0, 1, 59, 60, 3599, 3600, 43199, 43200, 86340, 86399]))
+_us = st.one_of(st.integers(0, 999999), st.integers(0, 999999), st.sampled_from([0, 0, 1, 10, 100, 999, 1000, 5000, 120000, 250000, 500000, 999000, 999999]))
+_time = st.one_of(st.tuples(_sec, _us), st.tuples(_sec, _us), st.tuples(_sec, _us), st.tuples(_sec, _us), st.tuples(_sec, st.integers(10, 999999)),
+                  st.sampled_from([(0, 0), (0, 1), (0, 1), (1, 0), (60, 0), (3600, 0), (43200, 0), (0, 999999), (86399, 999999), (86399, 999999), (86399, 0), (59, 1)]))
+_day_case = st.tuples(_day, _time).map(lambda c: [c[0], c[1][0], c[1][1]])
 
 
 def _derived_time(o):
@@ -205,6 +259,10 @@ def _derived_time(o):
     sec = (o * 7919 + 17) % 86400
     if r == 1:
         return sec, 0
+    if r == 2:
+        return sec, 1000 * ((o * 104729 + 3) % 1000)                      # whole milliseconds
+    if r == 3 and (o // 8) % 4 == 0:
+        return [(0, 1), (86399, 999999), (0, 999999), (59, 1)][(o // 32) % 4]  # microsecond = 1 with everything else 0, last microsecond of the day, ...
     return sec, (o * 104729 + 3) % 1000000
 
 
@@ -273,9 +331,10 @@ def enum_overflow(tier):
 
 _ORACLE = ('oracle: equality (and type datetime, tz-naive) with the python datetime built from the ordinal; ValueError demanded for day>12 strings in the other dialect; '
            'ymd = midnight of the day; dt(dt2str(t)) == t. ')
-_FORMATS = ('datetime, date, (y,m,d), (y,m,d,h,mi,s), yyyymmdd int, ordinal, datetime64[D/h/m/s/ms/us/ns], pd.Timestamp, ISO with fraction / with seconds / date only, '
-            "'yyyymmdd', three month-name spellings (+time), dd{sep}mm{sep}yyyy [hh:mm:ss[.ffffff]] uk and mm{sep}dd{sep}yyyy [hh:mm:ss[.ffffff]] us for 4 separators, "
-            'other-dialect strings for day>12, dt2str round trips, 9 ymd() calls (about 95 calls per day). ')
+_FORMATS = ('datetime, date, (y,m,d), (y,m,d,h), (y,m,d,h,mi), (y,m,d,h,mi,s), yyyymmdd int, ordinal, datetime64[D/h/m/s/ms/us/ns], pd.Timestamp (us and ns unit), '
+            "ISO with a 6-digit fraction / with a 1-5 and 7-9 digit fraction / with seconds / date only, 'yyyymmdd', three month-name spellings (+time, +upper/lower case), "
+            'dd{sep}mm{sep}yyyy [hh:mm:ss[.f{1,6}]] uk and mm{sep}dd{sep}yyyy [hh:mm:ss[.f{1,6}]] us (also dialect="US") for 4 separators, '
+            'other-dialect strings for day>12, dt2str round trips, 9 ymd() calls (about 112 calls per day). ')
 
 SUBS = [
     Sub('spellings', lambda tier: _day_case, run_day, quick=4000, thorough=30000,
@@ -283,7 +342,10 @@ SUBS = [
              'time uniform plus boundary values. Per case: ' + _FORMATS + _ORACLE +
              'non-trivial = ambiguous day (day<=12, day!=month) or leap day or 1 Jan/31 Dec or 28 Feb/1 Mar of a century year; distinct = distinct spec',
         floor=0.3, class_floors={'ambiguous(day<=12,day!=month)': 0.2, 'day>12': 0.2, 'leap_day': 0.03, 'year_boundary': 0.03,
-                                 'december': 0.04, 'microseconds': 0.3, 'midnight': 0.01}),
+                                 'december': 0.04, 'microseconds': 0.3, 'midnight': 0.01,
+                                 'subsecond_from_2243': 0.05, 'subsecond_ns_2107_to_limit': 0.15, 'subsecond_before_1970': 0.03,
+                                 'short_fraction_informative': 0.35, 'whole_milliseconds': 0.02, 'only_microsecond=1': 0.01,
+                                 'last_microsecond_of_day': 0.01, 'hour=0_time!=0': 0.03}),
     EnumSub('edge_years', enum_edge_years, run_day, chunks=8,
             rule='run in BOTH tiers: every day of the years %s (%i days: every month x day combination in leap and non-leap years, both ends of the domain, '
                  'the datetime64[ns] limit), time of day derived from the ordinal; same oracle as spellings' % (EDGE_YEARS, sum(366 if _is_leap(y) else 365 for y in EDGE_YEARS))),
